@@ -920,6 +920,24 @@ func (w *World) Inject(peer, what string, raw []byte) []pfcpx.Dgram {
 				w.emit(map[string]interface{}{"ev": "listenerdrop", "peer": p.Name, "n": w.dropLogCount() - logMark})
 				_ = p.Send(message.NewHeartbeatRequest(seq, ie.NewRecoveryTimeStamp(p.TS), nil))
 				deadline = time.Now().Add(w.RespWait)
+
+				continue
+			}
+
+			// the injected datagram was (still) a valid Association Release Request whose answer came later than the 15 ms
+			// above (a loaded machine): the barrier went into the socket that the teardown then closed. The teardown is over
+			// by now; the barrier is transmitted again, once.
+			for _, d := range p.Peek() {
+				if d.TypeNum == int(message.MsgTypeAssociationReleaseResponse) && w.Agent != nil && w.Agent.Alive() {
+					if !w.WaitEventCount("conn.shutdown.done", p.LocalAddr(), before+1, 400*time.Millisecond) {
+						time.Sleep(40 * time.Millisecond)
+					}
+
+					_ = p.Send(message.NewHeartbeatRequest(seq, ie.NewRecoveryTimeStamp(p.TS), nil))
+					deadline = time.Now().Add(w.RespWait)
+
+					break
+				}
 			}
 
 			continue
